@@ -28,6 +28,9 @@ Inductive fid :=
 | FStatE                                 (* /proc/<entry>/stat *)
 | FRoot | FNetTcp | FNetTcp6 | FNetUdp | FNetUdp6 | FNetUnix.   (* /proc, /proc/net/... *)
 Record label := { l_kind : akind; l_who : who; l_file : fid }.
+(* what an access may answer while the process is alive, besides success and refusal:
+   nothing else / also ENOENT, ESRCH (file may be gone) / also EINVAL (not a link) *)
+Inductive oclass := Strict | MayVanish | MayVanishOrInval.
 
 Inductive errno := ENOENT | ESRCH | EACCES | EPERM | EINVAL.
 Inductive lcls := LReg | LSock | LOtherLink.
@@ -328,18 +331,22 @@ Definition new_process (x : who) (stat : fid) :=
   seqs [ SetFlag F_NOIDENT false;
          Try (Call (wrapped_at x stat (bcat x stat)))
              (handlers [(HAD, SetFlag F_NOIDENT true); (HZombie, SetFlag F_NOIDENT true); (HNSP, Raise (XNSP x))]) Skip ].
-Definition is_running_of (x : who) (stat : fid) (fg fr : nat) :=
+Definition is_running_of (x : who) (stat : fid) (fg fr fo : nat) :=
   Call (If (TFlag fg) Ret (If (TFlag fr) Ret
     (Try (seqs [ new_process x stat;
-                 (* self._pid_reused = self != Process(self.pid): idents differ when the new one has no create time *)
-                 If (TFlag F_NOIDENT) (Seq (SetFlag fr true) (Raise (XNSP x))) Ret ])
+                 (* self._pid_reused = self != Process(self.pid): the idents (pid, create time | None) differ when
+                    exactly one of the two objects could not read its create time ([fo]: this object could not) *)
+                 If (TFlag F_NOIDENT)
+                    (If (TFlag fo) Ret (Seq (SetFlag fr true) (Raise (XNSP x))))
+                    (If (TFlag fo) (Seq (SetFlag fr true) (Raise (XNSP x))) Ret) ])
          (handlers [(HZombie, Ret); (HNSP, Seq (SetFlag fg true) Ret)]) Skip))).
-Definition raise_if_pid_reused_of (x : who) (stat : fid) (fg fr : nat) :=
+Definition raise_if_pid_reused_of (x : who) (stat : fid) (fg fr fo : nat) :=
   seqs [ If (TFlag fg) (If (TFlag fr) Skip (Raise (XNSP x))) Skip;
          If (TFlag fr) (Raise (XNSP x))
-            (Seq (is_running_of x stat fg fr) (If (TFlag fr) (Raise (XNSP x)) Skip)) ].
-Definition f_is_running := is_running_of Self FStat F_GONE F_REUSED.
-Definition raise_if_pid_reused := raise_if_pid_reused_of Self FStat F_GONE F_REUSED.
+            (Seq (is_running_of x stat fg fr fo) (If (TFlag fr) (Raise (XNSP x)) Skip)) ].
+Definition F_SNOIDENT := 10%nat. (* this object's _ident is (pid, None): never, the object is created before any fault *)
+Definition f_is_running := is_running_of Self FStat F_GONE F_REUSED F_SNOIDENT.
+Definition raise_if_pid_reused := raise_if_pid_reused_of Self FStat F_GONE F_REUSED F_SNOIDENT.
 Definition f_ppid := Call (Memo 3 (Seq raise_if_pid_reused i_stat_based)).
 Definition f_create_time := If (TFlag F_CTIME) Skip (Seq i_stat_based (SetFlag F_CTIME true)).
 Definition f_uids := Call (Memo 4 i_status_based).
@@ -349,11 +356,14 @@ Definition f_memory_info := Call (Memo 6 i_memory_info).
 Definition F_HASPARENT := 7%nat. (* parent() returned a Process *)
 Definition F_PGONE := 8%nat.     (* the parent object's _gone / _pid_reused *)
 Definition F_PREUSED := 9%nat.
+Definition F_PNOIDENT := 11%nat. (* the parent object's _ident is (ppid, None) *)
 Definition f_parent :=
   Call (seqs [ raise_if_pid_reused;
     If (TParam W_ISLOWEST) Ret
     (seqs [ f_ppid; f_create_time;
-            Try (seqs [ new_process Other FParentStat; Call (wrapped_at Other FParentStat (bcat Other FParentStat));
+            Try (seqs [ new_process Other FParentStat;
+                        If (TFlag F_NOIDENT) (SetFlag F_PNOIDENT true) (SetFlag F_PNOIDENT false);
+                        Call (wrapped_at Other FParentStat (bcat Other FParentStat));
                         SetFlag F_HASPARENT true; Ret ])
                 (handlers [(HNSP, Skip)]) Skip;
             Ret ]) ]).
@@ -361,7 +371,7 @@ Definition f_parent :=
    _raise_if_pid_reused() touches the OS *)
 Definition f_parents :=
   Call (seqs [ SetFlag F_HASPARENT false; f_parent;
-               If (TFlag F_HASPARENT) (raise_if_pid_reused_of Other FParentStat F_PGONE F_PREUSED) Skip; Ret ]).
+               If (TFlag F_HASPARENT) (raise_if_pid_reused_of Other FParentStat F_PGONE F_PREUSED F_PNOIDENT) Skip; Ret ]).
 (* children(recursive=False): _raise_if_pid_reused(); ppid_map(); for each child: Process(child), create times *)
 Definition ppid_map :=
   seqs [ acc KListdir Global FRoot;
